@@ -200,7 +200,7 @@ class QConn:
         self.cport, self.sport, self.cip, self.sip = cport, sport, wire.ipb(cip), wire.ipb(sip)
         self.cmac, self.smac = cmac, smac
         self.t = t0
-        self.items, self.expect = [], []
+        self.items, self.expect, self.expect_idx, self.dirs = [], [], [], []
         klen, h, kind = SUITES[suite]
         n = h().digest_size
         self.sec = {k: rng.randbytes(n) for k in ("chs", "shs", "cap", "sap")}
@@ -243,14 +243,20 @@ class QConn:
     def flush(self, from_server, stream_bytes=b"", dt=None, trailing_zeros=0):
         payload = b"".join(self.cur) + b"\0" * trailing_zeros
         self.cur = []
-        self.t += dt if dt is not None else self.rng.randrange(200, 40_000)
+        # coarse capture clocks: an answer may carry the same timestamp as the datagram it answers (opposite
+        # direction only — datagrams of one direction are told apart by their timestamps, as the property says)
+        same_tick = self.items and getattr(self, "_last_dir", None) == (not from_server) and self.rng.random() < 0.08
+        self.t += dt if dt is not None else (0 if same_tick else self.rng.randrange(200, 40_000))
+        self._last_dir = bool(from_server)
         if from_server:
             f = wire.udp_frame(self.smac, self.cmac, self.sip, self.cip, self.sport, self.cport, payload)
         else:
             f = wire.udp_frame(self.cmac, self.smac, self.cip, self.sip, self.cport, self.sport, payload)
         self.items.append(("pkt", self.t, f))
+        self.dirs.append(bool(from_server))
         if stream_bytes:
             self.expect.append((self.t, bool(from_server), stream_bytes))
+            self.expect_idx.append(len(self.items) - 1)
 
     def q_initial(self, from_server, frames, pnlen=1, token=b"", pad_to=0, jump=0):
         keys = self.si if from_server else self.ci
@@ -443,8 +449,10 @@ def random_connection(rng, idx=0, v6=None, suite=None, features=None):
     else:
         cip, sip = bytes([10, 1, rng.randrange(256), 1 + rng.randrange(250)]), bytes([192, 168, rng.randrange(256), 1 + rng.randrange(250)])
     pn_start = {}
+    ep = f.get("endpoints") or {}
+    cip, sip = ep.get("cip", cip), ep.get("sip", sip)
     c = QConn(rng, suite=f["suite"], offer=offer, scid_c_len=f["scid_c_len"], scid_s_len=f["scid_s_len"],
-              cport=30000 + rng.randrange(30000), sport=443, cip=cip, sip=sip, early=f["zero_rtt"],
+              cport=ep.get("cport", 30000 + rng.randrange(30000)), sport=443, cip=cip, sip=sip, early=f["zero_rtt"],
               t0=1_700_000_100_000_000 + idx * 1000 + rng.randrange(10 ** 6), pn_start=pn_start,
               cmac=bytes([2, 0, 2, rng.randrange(256), rng.randrange(256), idx & 255]),
               smac=bytes([2, 0, 3, rng.randrange(256), rng.randrange(256), idx & 255]))
